@@ -3,7 +3,7 @@ from functools import partial
 
 from . import engine
 from .rules import (tables, errflow, stop, scope, fold, hashorder, eqfield, cast, lock, witness, orpat, guard, parsepure,
-                    kernel, evalorder, layer, export, panic, misc, pairflowrule, variant, folddrop, queryguard, iterops, round3, forshape, typeprint, variance, round4)
+                    kernel, evalorder, layer, export, panic, misc, pairflowrule, variant, folddrop, queryguard, iterops, round3, forshape, typeprint, variance, round4, round6)
 
 TRUST = ["rustc: type checking, MIR construction, Instance resolution, auto traits",
          "pest / pest_meta: PEG semantics, silent/atomic rule semantics, PrattParser precedence climbing",
@@ -43,8 +43,8 @@ prop("C01",
      "guard conditions are taken as written (a weakened but present condition is not detected)")
 
 prop("C02",
-     [partial(panic.run, name="R-PANIC"), errflow.run, stop.run, scope.run, orpat.run, lock.run, guard.run_execerror, variant.run, guard.run_mustcall, misc.run_looptype, layer.run, round3.run_assigntyping],
-     "Also R-ASSIGNTYPING (a compound assignment admitting operands its operator does not type ends in a failed downcast). Decides: the complete inventory of panic-capable sites (383 today) is matched per function and signature to a reviewed "
+     [partial(panic.run, name="R-PANIC"), errflow.run, stop.run, scope.run, orpat.run, lock.run, guard.run_execerror, variant.run, guard.run_mustcall, misc.run_looptype, layer.run, round3.run_assigntyping, round6.run_unarycall, round6.run_whobinds],
+     "R-UNARYCALL / R-WHOBINDS: a callee's body never runs in the caller's scope, names are bound only by declaring constructs. Also R-ASSIGNTYPING (a compound assignment admitting operands its operator does not type ends in a failed downcast). Decides: the complete inventory of panic-capable sites (383 today) is matched per function and signature to a reviewed "
      "justification naming the check that discharges it (R-PANIC); no error or control signal is dropped (R-ERRFLOW); ExecStop is "
      "raised and caught only where the control-flow table says, with the documented routing (R-STOP); no callee declares into the "
      "caller's scope (R-SCOPE); no universal check is written as an overlapping or-pattern (R-ORPAT); nothing can panic while a "
@@ -69,8 +69,8 @@ prop("C03",
 
 prop("C04",
      [parsepure.run, kernel.run, guard.run_execerror, misc.run_retain, folddrop.run,
-      partial(panic.run, scope=FOLD_SCOPE, name="R-PANIC"), cast.run, round3.run_childkeep, round3.run_iterfold, layer.run, round4.run_declvalues],
-     "R-DECLVALUES. Also R-LAYER: the folder replaces run-time lookups by the declaration lexical scoping designates, so run-time scopes must follow it. Also: no collection of children is filtered while creating / folding (R-CHILDKEEP); folding never creates or pulls an iterator (R-ITERFOLD). Decides: folding cannot have effects, create cells or run user code (R-PARSEPURE: no path from parse / create / recreate to "
+      partial(panic.run, scope=FOLD_SCOPE, name="R-PANIC"), cast.run, round3.run_childkeep, round3.run_iterfold, layer.run, round4.run_declvalues, round6.run_arrayconst, round6.run_rekind],
+     "R-ARRAYCONST (folded array constants are typed by their values), R-REKIND (a fold rebuilds the construct itself). R-DECLVALUES. Also R-LAYER: the folder replaces run-time lookups by the declaration lexical scoping designates, so run-time scopes must follow it. Also: no collection of children is filtered while creating / folding (R-CHILDKEEP); folding never creates or pulls an iterator (R-ITERFOLD). Decides: folding cannot have effects, create cells or run user code (R-PARSEPURE: no path from parse / create / recreate to "
      "Exec::exec; cells built only by Mut::exec / of_type); the fold route and the run route of every operator end in the same "
      "kernel function (R-KERNEL, 62 rows); the early-error arms of the fold path raise only the variant the kernel raises "
      "(R-GUARD-X); only constant statements are dropped (R-RETAIN). Does NOT decide equality of results of twin programs.",
@@ -78,8 +78,8 @@ prop("C04",
      "kernel reuse is a sufficient mechanism, not a necessary one; And/Or folds are re-implementations (reviewed)")
 
 prop("C05",
-     [hashorder.run_hash, hashorder.run_order, hashorder.run_nondet, fold.run, lock.run_global, round4.run_instrstate, round4.run_concat],
-     "R-CONCAT (absorption by subtyping makes the member set depend on arrival order). Also R-GLOBAL / R-INSTRSTATE: nothing is left behind by an earlier parse or run. Decides: no Hash impl of a crate type observes hash iteration order (R-HASH); every iteration over a HashMap / HashSet / "
+     [hashorder.run_hash, hashorder.run_order, hashorder.run_nondet, fold.run, lock.run_global, round4.run_instrstate, round4.run_concat, round6.run_noabsorb],
+     "R-NOABSORB. R-CONCAT (absorption by subtyping makes the member set depend on arrival order). Also R-GLOBAL / R-INSTRSTATE: nothing is left behind by an earlier parse or run. Decides: no Hash impl of a crate type observes hash iteration order (R-HASH); every iteration over a HashMap / HashSet / "
      "MultiType ends in an order-insensitive consumer, a commutative fold, a display-only context or a reviewed row "
      "(R-HASHORDER, def-use from each iteration start to its terminal consumers); no clock / env / thread / RandomState call "
      "outside stdlib::{fs,io} (R-NONDET); union folds query all members alike (R-FOLD).",
@@ -87,8 +87,8 @@ prop("C05",
      "commutativity of Type::concat / conjoin is a reviewed reason, not proved")
 
 prop("C06",
-     [scope.run, layer.run, round4.run_declvalues, guard.run_mustcall],
-     "R-MUSTCALL rows: a declared function (re)binds its own name on every path of its creation and folding. R-DECLVALUES: a declaration of several names does not see the names it declares. Decides: Function::exec (runs a body in the given scope) is called only from exec_with_args (fresh interpreter holding self + "
+     [scope.run, layer.run, round4.run_declvalues, guard.run_mustcall, round6.run_unarycall, round6.run_whobinds],
+     "R-UNARYCALL, R-WHOBINDS. R-MUSTCALL rows: a declared function (re)binds its own name on every path of its creation and folding. R-DECLVALUES: a declaration of several names does not see the names it declares. Decides: Function::exec (runs a body in the given scope) is called only from exec_with_args (fresh interpreter holding self + "
      "params) and the host-call harness (R-SCOPE); each scoping construct creates its layer at check, fold and run time and runs "
      "its inside against the new layer; capture = recreate against the creating interpreter; modules are built from exactly the "
      "dropped layer; lower_layer is a shared reference and insert touches only the own map (R-LAYER, 26 obligations). Does NOT "
@@ -96,8 +96,8 @@ prop("C06",
      "who-may-call, scope pairing with def-use of the layer local and liveness", "")
 
 prop("C07",
-     [evalorder.run, folddrop.run, round3.run_childkeep],
-     "Also R-CHILDKEEP: arms / candidates / elements are never filtered out of the instruction tree. Decides for the 11 Exec bodies that order operands: order by must-precede on the CFG, at most once per path, short-circuit by "
+     [evalorder.run, folddrop.run, round3.run_childkeep, round6.run_strict],
+     "R-STRICT: strict constructs evaluate every operand on every successful path. Also R-CHILDKEEP: arms / candidates / elements are never filtered out of the instruction tree. Decides for the 11 Exec bodies that order operands: order by must-precede on the CFG, at most once per path, short-circuit by "
      "control dependence, branch exclusivity by mutual unreachability, sequences by absence of reordering adaptors. Order inside "
      "slice::Iter / zip / collect is trusted.",
      "dominance / reachability on MIR CFG keyed by receiver field of each exec call", "")
@@ -121,8 +121,8 @@ prop("C09",
      "forbidden-callee scan, panic inventory, cast guards", "")
 
 prop("C10",
-     [variance.run, round3.run_meetuse, round4.run_meetcell, round4.run_concat],
-     "R-CONCAT: the union of two types never drops a member by a `matches` test. R-MEETCELL: the meet never looks inside two cell types. Decides the direction clauses of the subtype relation on a provenance analysis of Type::matches, FunctionType::matches, "
+     [variance.run, round3.run_meetuse, round4.run_meetcell, round4.run_concat, fold.run, round6.run_noabsorb],
+     "R-FOLD: every Type query answers for a union member-wise (or delegates to exactly one other query); R-NOABSORB. R-CONCAT: the union of two types never drops a member by a `matches` test. R-MEETCELL: the meet never looks inside two cell types. Decides the direction clauses of the subtype relation on a provenance analysis of Type::matches, FunctionType::matches, "
      "StructType::matches and their closures (every value labelled with the operand - left S or right O -, field and variant "
      "payload it comes from; closures inherit the labels of what they capture and of the iterator they are handed to): arrays, "
      "tuples, struct fields, union members and function results are compared (part of S, part of O); function parameters (O, S); "
@@ -155,8 +155,8 @@ prop("C12",
      [stop.run, evalorder.run,
       partial(guard.run, only_variants=("BreakOutsideLoop", "ContinueOutsideLoop", "ReturnOutsideFunction", "WrongReturn",
                                         "MatchNotCovered", "WrongCondition", "MissingReturn")),
-      partial(tables.run_dispatch, only=("match_arm", "stm", "line", "body")), pairflowrule.run, guard.run_mustcall, misc.run_looptype, round3.run_meetuse, round3.run_childkeep, round3.run_valuearm, forshape.run],
-     "Also: arms are never dropped from a match (R-CHILDKEEP), not pruned by the non-exact Type::conjoin (R-MEETUSE); a value arm is decided by == alone (R-VALUEARM). Decides: a single catch site per signal (Loop::exec for Break/Continue, Function::exec for Return) with the documented "
+      partial(tables.run_dispatch, only=("match_arm", "stm", "line", "body")), pairflowrule.run, guard.run_mustcall, misc.run_looptype, round3.run_meetuse, round3.run_childkeep, round3.run_valuearm, forshape.run, round6.run_rekind],
+     "R-REKIND: folding a loop yields a loop (its catch site for break / continue stays). Also: arms are never dropped from a match (R-CHILDKEEP), not pruned by the non-exact Type::conjoin (R-MEETUSE); a value arm is decided by == alone (R-VALUEARM). Decides: a single catch site per signal (Loop::exec for Break/Continue, Function::exec for Return) with the documented "
      "routing, sugared loops emit Break inside a Loop, in_loop set/restored/reset (R-STOP); placement and exhaustiveness guards "
      "exist and dominate success (R-GUARD); arm loop returns at the first cover, branches are exclusive (R-EVALORDER); all three "
      "match-arm forms and all statements have a handler (R-TABLES-D). Does NOT decide which arm a given value selects.",
@@ -180,8 +180,8 @@ prop("C14",
      "docs/operators.md is the documented table; four operators it omits are placed as the property statement says")
 
 prop("C15",
-     [typeprint.run, round4.run_structprint],
-     "R-STRUCTPRINT: the struct type printer never funnels fields through a keyed collection. Decides the structural half of the print / re-parse round trip of types: the printing code (Display of Type, FunctionType, "
+     [typeprint.run, round4.run_structprint, round6.run_noabsorb],
+     "R-NOABSORB: reading a union back never absorbs members. R-STRUCTPRINT: the struct type printer never funnels fields through a keyed collection. Decides the structural half of the print / re-parse round trip of types: the printing code (Display of Type, FunctionType, "
      "MultiType, read from the MIR as templates + nested positions + the tests `is a union` / `is !` that pick an alternative) is "
      "instantiated with sample sub-types (plain, union, function, function returning a union, cell, array, tuple, (), any, !) in "
      "every nested position and every list length the grammar admits; each text is parsed with the repository's grammar and must "
@@ -202,8 +202,8 @@ prop("C16",
 
 prop("C17",
      [partial(witness.run, only=("W2CodeStatic", "W4ExecIsolated")), parsepure.run, misc.run_direction,
-      partial(guard.run, only_variants=("WrongNumberOfArguments", "WrongArgument")), guard.run_mustcall, round4.run_instrstate, lock.run_global, layer.run, round4.run_declvalues],
-     "R-DECLVALUES. Also: parsed code holds no interior-mutable state (R-INSTRSTATE), there is no global mutable state (R-GLOBAL), and the run-time scope discipline the REPL / batch equivalence relies on (R-LAYER). Decides: isolation by type (Code: 'static; Code::exec(&self) builds its own interpreter; parse takes &Interpreter); "
+      partial(guard.run, only_variants=("WrongNumberOfArguments", "WrongArgument")), guard.run_mustcall, round4.run_instrstate, lock.run_global, layer.run, round4.run_declvalues, round6.run_whobinds],
+     "R-WHOBINDS: executing a program adds no name of its own to the interpreter. R-DECLVALUES. Also: parsed code holds no interior-mutable state (R-INSTRSTATE), there is no global mutable state (R-GLOBAL), and the run-time scope discipline the REPL / batch equivalence relies on (R-LAYER). Decides: isolation by type (Code: 'static; Code::exec(&self) builds its own interpreter; parse takes &Interpreter); "
      "repeatability's structural half (no execution at parse time, cells only from Mut::exec); host calls re-check arity and each "
      "argument in the same direction as in-language calls and create_call goes through create_from_variables. Does NOT decide "
      "REPL = batch (a relation over histories).",
